@@ -13,6 +13,15 @@
 (*   "set"  (C08): set operations must satisfy the MotlSetOps predicates   *)
 (*           and must leave every other field (incl. the pose) of every    *)
 (*           surviving row untouched; pose steps only re-synchronise.      *)
+(*   "sg"   (C04): a STOPGAP round trip (in memory or through a .star      *)
+(*           file) must return the same particles in the same order with   *)
+(*           the shared fields (numbers, score, class, position, shifts,   *)
+(*           orientation) of the previous logged state.                    *)
+(*   "relion" (C03): a RELION 3.0/3.1/4.0 export -> import (in memory or   *)
+(*           through a STAR file) must return every particle, in order, to *)
+(*           its complete position (as x, zero shift) and orientation,     *)
+(*           keep tomogram number and class, and carry the subtomogram     *)
+(*           number in geom3.                                              *)
 (* so that a defect of one property never raises the other's alarm.        *)
 (*                                                                         *)
 (* A logged row is [sid, tomo, obj, cls, score, tag, x, s, r] with x, s on *)
@@ -84,7 +93,29 @@ SetClause(e) ==
           [] e.name = "renumber_objects" -> S!ObjectsSequential(A, e.start, R)
           [] e.name = "em_roundtrip" -> R = A          \* write_out + load: same particles, same order, same fields
 
-ClauseName(e) == CASE e.name = "subset" -> "C08_SubsetExact" [] e.name = "remove" -> "C08_RemoveComplementsSubset"
+\* ---- format round trips ---------------------------------------------------------------------
+\* (the harness re-installs the row tags by position afterwards, so a permuted result shows as changed fields)
+ConvNames == {"sg_roundtrip", "relion_roundtrip"}
+
+SgStepOK(e) ==
+    /\ Len(e.post) = Len(st)
+    /\ \A k \in DOMAIN st : /\ SameIdentity(st[k], e.post[k])
+                            /\ SamePose(st[k], e.post[k])
+
+RelionStepOK(e) ==
+    /\ Len(e.post) = Len(st)
+    /\ Len(e.geom3) = Len(st)
+    /\ \A k \in DOMAIN st :
+          LET was == ToPose(st[k])
+              got == ToPose(e.post[k])
+          IN  /\ e.post[k].tomo = st[k].tomo
+              /\ e.post[k].cls = st[k].cls
+              /\ e.geom3[k] = st[k].sid
+              /\ got.x = P!Complete(was)
+              /\ got.s = <<0, 0, 0>>
+              /\ got.R = was.R
+
+ClauseName(e) == CASE e.name = "sg_roundtrip" -> "C04_SharedFieldsSurvive" [] e.name = "relion_roundtrip" -> "C03_RoundTripPose" [] e.name = "subset" -> "C08_SubsetExact" [] e.name = "remove" -> "C08_RemoveComplementsSubset"
                    [] e.name = "intersect" -> "C08_IntersectionExact" [] e.name = "dropdup" -> "C08_DropDupOneBest"
                    [] e.name = "merge_renumber" -> "C08_MergeNumbers" [] e.name = "renumber_particles" -> "C08_ParticlesRenumbered"
                    [] e.name = "renumber_objects" -> "C08_ObjectsSequential" [] e.name = "em_roundtrip" -> "C01_RoundTrip"
@@ -98,8 +129,13 @@ Exact(T) == \A k \in DOMAIN T : T[k].r[1] # 0
 
 Failing(e) ==
     IF ~Exact(st) THEN "none"
-    ELSE IF ~Exact(e.post) /\ ((Scope = "pose" /\ e.name \in PoseNames) \/ (Scope = "set" /\ e.name \in SetNames))
+    ELSE IF ~Exact(e.post) /\ (\/ (Scope = "pose" /\ e.name \in PoseNames) \/ (Scope = "set" /\ e.name \in SetNames)
+                              \/ (Scope = "sg" /\ e.name = "sg_roundtrip") \/ (Scope = "relion" /\ e.name = "relion_roundtrip"))
     THEN ClauseName(e)
+    ELSE IF Scope = "sg" /\ e.name = "sg_roundtrip"
+    THEN (IF SgStepOK(e) THEN "none" ELSE ClauseName(e))
+    ELSE IF Scope = "relion" /\ e.name = "relion_roundtrip"
+    THEN (IF RelionStepOK(e) THEN "none" ELSE ClauseName(e))
     ELSE IF Scope = "pose" /\ e.name \in PoseNames
     THEN (IF PoseStepOK(e) THEN "none" ELSE ClauseName(e))
     ELSE IF Scope = "set" /\ e.name \in SetNames
